@@ -361,6 +361,8 @@ def r_reg_fresh(ck: Checker) -> None:
                 ck.violation("R-REG-FRESH", f, st, what, evaluations=len(oks), construct=f"{q}: {REG}[{k}] stored without a freshness proof on some path")
     # the unique-id helper returns only a key that is not registered
     h = ck.repo.func(NODE, "_get_next_unique_id")
+    n += 1
+    r_unique_id_state(ck)
     from ..facts import facts_in
     what = "_get_next_unique_id returns only an id that is proven not to be registered (tested with `in` / `get(..) is None` on every path to the return)"
     fs = facts_in(h.node)
@@ -581,6 +583,27 @@ def r_id_det(ck: Checker) -> None:
     if len(sinks) != 1:
         raise Unsupported(f"expected one id digest sink, found {len(sinks)}", f.node)
     D.check_sink(ck, f, sinks[0], "id", "R-ID-DET")
+
+
+def r_unique_id_state(ck: Checker, rule: str = "R-ID-DET") -> None:
+    h = ck.repo.func(NODE, "_get_next_unique_id")
+    # the id handed out is a function of the requested id and the registry: no other module-level state (a remembered suffix would make
+    # the id of a re-created node depend on the history of collisions)
+    mtree = ck.repo.mod(NODE).tree
+    mod_state = set()
+    for st_ in mtree.body:
+        tgs = st_.targets if isinstance(st_, ast.Assign) else ([st_.target] if isinstance(st_, ast.AnnAssign) and st_.value is not None else [])
+        v_ = getattr(st_, "value", None)
+        for t_ in tgs:
+            if isinstance(t_, ast.Name) and t_.id != REG and (isinstance(v_, (ast.Dict, ast.List, ast.Set)) or (
+                    isinstance(v_, ast.Call) and (dotted(v_.func) or "").split(".")[-1] in ("dict", "list", "set", "defaultdict", "Counter", "WeakValueDictionary", "count"))):
+                mod_state.add(t_.id)
+    used_state = sorted({n_.id for n_ in ast.walk(h.raw or h.node) if isinstance(n_, ast.Name) and n_.id in mod_state})
+    what_s = "_get_next_unique_id depends on the requested id and the registry only"
+    if used_state:
+        ck.violation(rule, h, h.node, what_s, construct=f"_get_next_unique_id reads / updates the module-level {used_state[0]} (the id depends on earlier collisions, not only on what is registered now)")
+    else:
+        ck.holds(rule, h, h.node, what_s)
 
 
 def r_get_form(ck: Checker) -> None:
